@@ -268,10 +268,21 @@ pub(crate) fn lex_between<'a>(
                 continue 'outer;
             }
         }
-        if let Some(string_match) = STRING_RE.find(s) {
+        if let Some(string_captures) = STRING_RE.captures(s) {
+            let string_match = string_captures
+                .get(0)
+                .expect("Capture group 0 is the whole match");
+            // The literal is closed if the last group matched a
+            // doublequote rather than the end of the input. Looking
+            // at the last character isn't enough: it is the opening
+            // quote in `"` and an escaped quote in `"abc\"`.
+            let is_closed = string_captures
+                .get(2)
+                .is_some_and(|m| m.as_str() == "\"");
+
             let text = string_match.as_str();
             let (line_number, column) = lp.from_offset(offset);
-            if text.ends_with('"') {
+            if is_closed {
                 // Well-formed string literal. It may contain
                 // newlines, so it can end on a later line.
                 let (end_line_number, end_column) = lp.from_offset(offset + string_match.end());
